@@ -2,6 +2,7 @@ import TantivyModel.Driver.Proto
 import TantivyModel.Model.Writer
 import TantivyModel.Model.WriterMergeMeta
 import TantivyModel.Model.WriterHistory
+import TantivyModel.Model.WriterBook
 /-!
 Line protocol of the C02 model.  Documents are the harness's unique ids; a delete query travels
 as its extension over the ids of the history (`-` = matches nothing).
@@ -18,11 +19,25 @@ History tokens (no blanks inside a token, optional `@n` suffix = opstamp the rea
   `C02 replay tok…`            -> `committed=<ids>;pending=<ids>;last=<n>;payload=<n|->`  (specification)
   `C02 impl <workers> <seed> tok…` -> the implementation-level model under a schedule derived from
                                   `seed`, ticking the stamper up to the observed opstamps:
-                                  `pub=<ids>;meta=<n>;payload=<n|->;cop=<n>;ret=<n,…>;segs=<k>;merges=<k>`
+                                  `pub=<ids>;meta=<n>;payload=<n|->;cop=<n>;ret=<n,…>;segs=<k>;merges=<k>;pubD=<ids>`
+                                  (`pubD`: what the machine WITH the bookkeeping of advance_deletes,
+                                  `Model/WriterBook.lean`, publishes after the same events)
   `C02 mergecorner <B> <victim ids> <delop|->:<ids>;…` -> `pub=<ids>;cursor=<n>`: the merged segment
                                   after ONE merge of those committed segments, when the log holds one
                                   delete stamped with the commit opstamp B (advance_deletes with its
                                   delete_opstamp early return; catch-up guard as extracted)
+  `C02 substeps <cut> <schedule> <tokA> <tokB> tok…` -> `pub=<ids>;lazy=<ids>;ret=<a>,<b>` (or `disabled`): the
+                                  state machine with ONE worker, after the atomic prior calls `tok…`,
+                                  the two calls A and B run as sub-steps (`Event.stamp` / `Event.publish`)
+                                  in schedule 0 `s1 p1 s2 p2`, 1 `s1 s2 p1 p2`, 2 `s1 s2 p2 p1`, then a
+                                  commit; with cut = 1 the worker closes its segment after every batch
+                                  (what `tantivy::verif::set_segment_cut_docs(1)` makes the real worker
+                                  do); `pub`: the worker takes every batch as soon as it is sent, `lazy`:
+                                  it takes the batches of A and B only when the commit waits for it
+                                  (the harness does not control the worker thread: the real outcome
+                                  must be one of the two)
+  `C02 book tok…`              -> `ok` / `dirty`: `bookHist` (delete_all_documents only on a writer object that
+                                  has not committed yet), the extra hypothesis of C02_bookkeeping_refines_history
   `C02 clean tok…`             -> `clean` or `dirty:<i,…>;firstdel:<i,…>` (indices of the calls that violate
                                   a hypothesis of `C02_commit_refines_replay_partial`)
 -/
@@ -112,6 +127,8 @@ def hypViolations (h : List (Op Nat)) : List Nat × List Nat :=
 structure Sched where
   st : WState Nat
   rng : Nat
+  /-- the events fired so far, last first (replayed on the machine with bookkeeping, `pubD`) -/
+  evs : List (Event Nat) := []
 
 def nextRng (r : Nat) : Nat := (r * 6364136223846793005 + 1442695040888963407) % 18446744073709551616
 
@@ -121,7 +138,7 @@ def Sched.draw (sc : Sched) (n : Nat) : Nat × Sched :=
 
 def Sched.fire (sc : Sched) (e : Event Nat) : Sched :=
   match step sc.st e with
-  | some (s', _) => { sc with st := s' }
+  | some (s', _) => { sc with st := s', evs := e :: sc.evs }
   | none => sc
 
 /-- the hypothesis `cleanState` of `C02_commit_refines_replay_partial`, decided on a model state -/
@@ -213,7 +230,64 @@ def implRun (sc : Sched) : List (Op Nat × Option Nat) → Nat → List Nat → 
       if (match op with | .deleteAll => !cleanStateB sc.st | _ => false) then .error s!"hyp-violated:{i}" else
       match step sc.st (opToEvent op) with
       | none => .error s!"disabled:{i}"
-      | some (s', ret) => implRun { sc with st := s' } rest (i + 1) (ret :: rets)
+      | some (s', ret) => implRun { sc with st := s', evs := opToEvent op :: sc.evs } rest (i + 1) (ret :: rets)
+
+/-! ### the forced producer schedules (one worker, deterministic) -/
+
+def fire1 (s : WState Nat) (e : Event Nat) : WState Nat :=
+  match step s e with
+  | some (s', _) => s'
+  | none => s
+
+/-- the worker takes every batch sent so far; with `cut` it closes its segment after each batch -/
+def pump (cut : Bool) : Nat → WState Nat → WState Nat
+  | 0, s => s
+  | fuel + 1, s =>
+    if s.channel.isEmpty then s else
+    let s1 := fire1 s (.recv 0)
+    pump cut fuel (if cut then fire1 (fire1 s1 (.cut 0)) .register else s1)
+
+def registerAll : Nat → WState Nat → WState Nat
+  | 0, s => s
+  | fuel + 1, s => if s.inflight.isEmpty then s else registerAll fuel (fire1 s .register)
+
+/-- what `prepare_commit` waits for -/
+def settle (cut : Bool) (s : WState Nat) : WState Nat :=
+  registerAll 1000 (fire1 (pump cut 1000 s) (.cut 0))
+
+/-- an atomic call followed by the worker -/
+def atomicCall (cut : Bool) (s : WState Nat) (op : Op Nat) : Option (WState Nat × Nat) :=
+  let s := match op with
+    | .commit _ | .prepare => settle cut s
+    | _ => s
+  (step s (opToEvent op)).map (fun p => (pump cut 1000 p.1, p.2))
+
+def substepsRun (cut eager : Bool) (schedule : Nat) (a b : Op Nat) (prior : List (Op Nat)) : Option (WState Nat × Nat × Nat) := do
+  let s ← prior.foldlM (fun s op => (atomicCall cut s op).map (·.1)) (WState.init 1)
+  let pub (s : WState Nat) (k : Nat) : Option (WState Nat) :=
+    (step s (.publish k)).map (fun p => if eager then pump cut 1000 p.1 else p.1)
+  let (s, ra, rb) ←
+    match schedule with
+    | 0 => do
+      let (s, ra) ← step s (.stamp a)
+      let s ← pub s 0
+      let (s, rb) ← step s (.stamp b)
+      let s ← pub s 0
+      pure (s, ra, rb)
+    | 1 => do
+      let (s, ra) ← step s (.stamp a)
+      let (s, rb) ← step s (.stamp b)
+      let s ← pub s 0
+      let s ← pub s 0
+      pure (s, ra, rb)
+    | _ => do
+      let (s, ra) ← step s (.stamp a)
+      let (s, rb) ← step s (.stamp b)
+      let s ← pub s 1
+      let s ← pub s 0
+      pure (s, ra, rb)
+  let (s, _) ← atomicCall cut s (.commit none)
+  pure (s, ra, rb)
 
 /-- `<delete_opstamp|->:<alive ids>` -/
 def parseCornerSeg (i : Nat) (t : String) : Option (Seg Nat) :=
@@ -239,12 +313,25 @@ def handle : List String → String
       | some (docs, cur) => s!"pub={showNatList (sortNat docs)};cursor={cur}"
       | none => "pub=-;cursor=-"
     | _, _, _ => "bad-op"
+  | "substeps" :: cut :: schedule :: ta :: tb :: toks =>
+    match cut.toNat?, schedule.toNat?, parseTok ta, parseTok tb, toks.mapM parseTok with
+    | some cut, some schedule, some (a, _), some (b, _), some prior =>
+      match substepsRun (cut != 0) true schedule a b (prior.map (·.1)), substepsRun (cut != 0) false schedule a b (prior.map (·.1)) with
+      | some (s, ra, rb), some (s', _, _) =>
+        s!"pub={showNatList (sortNat (published s))};lazy={showNatList (sortNat (published s'))};ret={ra},{rb}"
+      | _, _ => "disabled"
+    | _, _, _, _, _ => "bad-op"
   | "replay" :: toks =>
     match toks.mapM parseTok with
     | none => "bad-op"
     | some ops =>
       let s := replay (ops.map (·.1))
       s!"committed={showNatList (sortNat s.committed)};pending={showNatList (sortNat s.pending)};last={s.lastCommit};payload={showOpt s.payload}"
+  | "book" :: toks =>
+    -- the history-level hypothesis of C02_bookkeeping_refines_history beyond `clean`
+    match toks.mapM parseTok with
+    | none => "bad-op"
+    | some ops => if bookHist false (ops.map (fun o => opToEvent o.1)) then "ok" else "dirty"
   | "clean" :: toks =>
     match toks.mapM parseTok with
     | none => "bad-op"
@@ -263,7 +350,11 @@ def handle : List String → String
       | .error e => e
       | .ok (sc, rets) =>
         let s := sc.st
-        s!"pub={showNatList (sortNat (published s))};meta={s.metas.opstamp};payload={showOpt s.metas.payload};cop={commitOpstamp s};ret={showNatList rets};segs={s.metas.segs.length};merges={s.merges.length}"
+        -- the same events on the machine with the bookkeeping of advance_deletes (Model/WriterBook.lean)
+        let pubD := match runD (WState.init nw, Book.init) sc.evs.reverse with
+          | some (sD, _) => showNatList (sortNat (published sD))
+          | none => "disabled"
+        s!"pub={showNatList (sortNat (published s))};meta={s.metas.opstamp};payload={showOpt s.metas.payload};cop={commitOpstamp s};ret={showNatList rets};segs={s.metas.segs.length};merges={s.merges.length};pubD={pubD}"
     | _, _, _ => "bad-op"
   | _ => "bad-op"
 
